@@ -31,13 +31,13 @@ theorem discard_strong {β : Type} {cfg : Cfg} {Ok : VB → Prop} {c : Nat} {m :
     stated list -/
 theorem OpOK.stepStrong {cfg : Cfg} {Ok : VB → Prop} {c : Nat} {m : Mem α} {w : VB} {xs xs' : List α} {o : OpSpec α}
     {p : M α Unit} (hi : HInv m) (hs : o.spec xs = xs') (h : Post p m (StrongPost cfg Ok c m w xs xs' ())) :
-    Post p m (StepPost cfg Ok c m xs o) :=
-  Post.mono h (fun _ _ hq => StepPost.ofStrong hi (by rw [hs]; exact hq))
+    Post p m (OpStepPost cfg Ok c m w xs o) :=
+  Post.mono h (fun _ _ hq => OpStepPost.ofStrong hi (by rw [hs]; exact hq))
 
 theorem OpOK.stepBasic {cfg : Cfg} {Ok : VB → Prop} {c : Nat} {m : Mem α} {w : VB} {xs xs' : List α} {o : OpSpec α}
     {p : M α Unit} (hb : o.strong = false) (hi : HInv m) (hs : o.spec xs = xs') (h : Post p m (BasicPost cfg Ok c m w xs' ())) :
-    Post p m (StepPost cfg Ok c m xs o) :=
-  Post.mono h (fun _ _ hq => StepPost.ofBasic hb hi (by rw [hs]; exact hq))
+    Post p m (OpStepPost cfg Ok c m w xs o) :=
+  Post.mono h (fun _ _ hq => OpStepPost.ofBasic hb hi (by rw [hs]; exact hq))
 
 /-! ### The operations with outside arguments -/
 
@@ -410,12 +410,26 @@ theorem all_ops_ok {cfg : Cfg} {Ok : VB → Prop} (L : VecLaws α cfg Ok) :
 
 /-- the history theorem for the vector operations: running any history of the listed operations on a valid container,
     continuing after every C++ exception, never produces a lifetime fault; the container ends holding a list that the
-    `std::vector` semantics of the history allows, and the invariants carried between operations still hold -/
+    `std::vector` semantics of the history allows, the invariants carried between operations still hold, and no heap block is
+    leaked: every block allocated since `nextId` was `n0` that still exists is the one the container owns (`Owned`; it holds at
+    the start for `n0 = m.nextId`, see `Owned.start`) -/
 theorem vector_history {cfg : Cfg} {Ok : VB → Prop} (L : VecLaws α cfg Ok) (c : Nat) (ops : List (OpSpec α))
     (hops : ∀ o ∈ ops, IsVecOp cfg o) (m : Mem α) (xs : List α)
-    (hv : VRep cfg Ok c m xs) (hi : HInv m) (hs : Safe cfg ops xs) (hcat : ∀ o ∈ ops, o.nonTC = true → m.cat ≠ .tc) :
-    Post (runHist cfg c ops) m (fun res m' => res = .ok () ∧ ∃ ys, Trace cfg ops xs ys ∧ VRep cfg Ok c m' ys ∧ HInv m' ∧ m'.cat = m.cat) :=
-  hist_post cfg Ok c ops m xs (fun o ho => (hops o ho).ok L) hv hi hs hcat
+    (hv : VRep cfg Ok c m xs) (hi : HInv m) (hs : Safe cfg ops xs) (hcat : ∀ o ∈ ops, o.nonTC = true → m.cat ≠ .tc)
+    (n0 : Nat) (ho : Owned cfg c n0 m) :
+    Post (runHist cfg c ops) m (fun res m' => res = .ok () ∧ ∃ ys, Trace cfg ops xs ys ∧ VRep cfg Ok c m' ys ∧ HInv m' ∧ m'.cat = m.cat
+      ∧ Owned cfg c n0 m') :=
+  hist_post cfg Ok c n0 ops m xs (fun o ho => (hops o ho).ok L) hv hi hs hcat ho
+
+/-- the same with any further invariant `I` of the memory that every framed, leak-free step on the container preserves -/
+theorem vector_history_inv {cfg : Cfg} {Ok : VB → Prop} (L : VecLaws α cfg Ok) (c : Nat) (I : Mem α → Prop)
+    (hI : ∀ (m m' : Mem α) (w : VB) (xs xs' : List α), VRepW cfg Ok c m xs w → VRep cfg Ok c m' xs' → HInv m → I m →
+      FrameL cfg c (regionOf cfg c w) m m' → I m')
+    (ops : List (OpSpec α)) (hops : ∀ o ∈ ops, IsVecOp cfg o) (m : Mem α) (xs : List α)
+    (hv : VRep cfg Ok c m xs) (hi : HInv m) (hs : Safe cfg ops xs) (hcat : ∀ o ∈ ops, o.nonTC = true → m.cat ≠ .tc) (hinv : I m) :
+    Post (runHist cfg c ops) m (fun res m' => res = .ok () ∧ ∃ ys, Trace cfg ops xs ys ∧ VRep cfg Ok c m' ys ∧ HInv m' ∧ m'.cat = m.cat
+      ∧ I m') :=
+  hist_post_inv cfg Ok c I hI ops m xs (fun o ho => (hops o ho).ok L) hv hi hs hcat hinv
 
 /-- the hypotheses on the history are satisfiable: a closed history whose list preconditions hold along every outcome
     (whichever of the operations throw) -/
@@ -455,7 +469,7 @@ theorem exMem_inv : HInv exMem := ⟨fun id h => by simp [Mem.buf, exMem] at h, 
     insertion exceeds the capacity and throws — runs without lifetime fault and ends in a state its trace allows -/
 example : Post (runHist exCfg 0 [opPushBack 7, opPushBack 8, opInsert 0 9, opClear]) exMem
     (fun res m' => res = .ok () ∧ ∃ ys, Trace exCfg [opPushBack 7, opPushBack 8, opInsert 0 9, opClear] [] ys ∧
-      VRep exCfg (Bridge.U8.FOk 2) 0 m' ys ∧ HInv m' ∧ m'.cat = exMem.cat) :=
+      VRep exCfg (Bridge.U8.FOk 2) 0 m' ys ∧ HInv m' ∧ m'.cat = exMem.cat ∧ Owned exCfg 0 exMem.nextId m') :=
   vector_history (Bridge.U8.fixed_vecLaws Nat exCfg rfl rfl rfl) 0 _
     (by
       intro o ho
@@ -470,6 +484,7 @@ example : Post (runHist exCfg 0 [opPushBack 7, opPushBack 8, opInsert 0 9, opCle
       intro o ho hn
       simp only [List.mem_cons, List.not_mem_nil, or_false] at ho
       rcases ho with rfl | rfl | rfl | rfl <;> cases hn)
+    _ (Owned.start exCfg 0 exMem_inv.fresh)
 
 end Example
 end AmcVerif
